@@ -56,6 +56,49 @@ func escCP(cp []int, mode string) string {
 	return sb.String()
 }
 
+func containsInt(a []int, x int) bool {
+	for _, y := range a {
+		if y == x {
+			return true
+		}
+	}
+	return false
+}
+
+func escapableCP(cp []int) bool {
+	for _, r := range cp {
+		if r == '/' || r == '"' || r == '\\' || r < 0x20 {
+			return true
+		}
+	}
+	return false
+}
+
+// hasEscapable: some string or key of the document has a character that JSON lets one spell as an escape
+func hasEscapable(v Value) bool {
+	switch v.T {
+	case "str":
+		return escapableCP(v.C)
+	case "arr":
+		for _, it := range v.Items {
+			if hasEscapable(it) {
+				return true
+			}
+		}
+	case "obj":
+		for _, p := range v.Ps {
+			cp := []int{}
+			for _, r := range string(p.K) {
+				cp = append(cp, int(r))
+			}
+			if escapableCP(cp) || hasEscapable(p.V) {
+				return true
+			}
+		}
+	}
+	return false
+}
+
 func hasDupKeys(v Value) bool {
 	switch v.T {
 	case "arr":
@@ -266,17 +309,16 @@ func init() {
 			docs[d.I-1] = d.V
 		})
 		var cases []semCase
+		var full []bool // every n-th schema goes through all layouts; the others only through the document spellings that change the text
 		k := 0
 		readLines(openIn(*casesPath), func(line []byte) {
 			k++
-			if k%*stride != 0 {
-				return
-			}
 			var c semCase
 			if err := json.Unmarshal(line, &c); err != nil {
 				fatal(err)
 			}
 			cases = append(cases, c)
+			full = append(full, k%*stride == 0)
 		})
 		w := newNDWriter(*out)
 		defer w.Close()
@@ -316,7 +358,22 @@ func init() {
 					}
 				}
 			}
+			if !full[ci] {
+				dsel = nil
+			}
+			// ... and up to three ACCEPTED documents in which an escape spelling changes the text (a solidus, a quote, a backslash, a control
+			// character): respelling may not turn them into rejected ones
+			for k, added := 0, 0; k < len(c.Verdicts) && added < 3; k++ {
+				di := (ci + k) % len(c.Verdicts)
+				if di < len(docs) && c.Verdicts[di] == 1 && hasEscapable(docs[di]) && !containsInt(dsel, di) {
+					dsel = append(dsel, di)
+					added++
+				}
+			}
 			for _, l := range layouts {
+				if !full[ci] {
+					break
+				}
 				atomic.AddInt64(&spellings, 1)
 				s, rr, err := buildSchemaL(c.Schema, c.Env, c.Opt, true, l)
 				var chk Outcome
